@@ -85,6 +85,7 @@ type World struct {
 	hold      map[string]int
 	endState  string
 	codeRand  *splitmix
+	stamp     int64
 	finished  bool
 	simEnd    time.Duration
 }
